@@ -390,6 +390,7 @@ func (w *wbuild) Drive(s *simrt.Sched, out *RunResult) {
 			return
 		}
 		resA := lastRes
+		dirInWayA := w.dirInWay
 		mA, cmA := m, cm
 		m, cm = mB, cmB
 		optsB := opts
@@ -400,6 +401,9 @@ func (w *wbuild) Drive(s *simrt.Sched, out *RunResult) {
 		w.mu.Lock()
 		w.M = mA
 		w.mu.Unlock()
+		for l := range dirInWayA {
+			w.dirInWay[l] = true // compareTwins: left open on either machine
+		}
 		w.compareTwins(resA, resB, req, mA, mB)
 	}
 	afterDrift := false
@@ -828,6 +832,9 @@ func (w *wbuild) compareTwins(a, b *InvResult, req BuildReq, mA, mB *Machine) {
 	ca, cb := count(a), count(b)
 	var diff []string
 	for _, l := range w.U.Labels() {
+		if w.dirInWay[l] {
+			continue // a directory sat where a file output belongs: restoring over it is left open (MAY re-execute)
+		}
 		if ca[l] != cb[l] {
 			diff = append(diff, fmt.Sprintf("%s: all=%d minimal=%d", l, ca[l], cb[l]))
 		}
@@ -1037,6 +1044,9 @@ func (w *wbuild) checkBuild(res *InvResult, req BuildReq, opts InvOpts, cm *cach
 					// re-run fails, only this dependant fails, the dependency's own node stays a cache
 					// hit and its other dependants may proceed
 					cm.markUnc(ev, l)
+					if cm.taint[l] {
+						cm.taintUnc[l] = true // it ran: its taint may have been consumed
+					}
 				} else {
 					report("C05", "built-despite-failed-dependency", "wbuild", l+" executed although a dependency failed or was skipped")
 				}
